@@ -100,6 +100,14 @@ class OpsMixin:
         if isinstance(a, (SymDT, SymTD)) or isinstance(b, (SymDT, SymTD)):
             from . import dtmodels
             return dtmodels.binop(self, op, a, b)
+        if isinstance(a, set) and isinstance(b, set) and (id(a) in self.symsets or id(b) in self.symsets):
+            if not isinstance(op, ast.Sub):
+                raise Unsupported("set operator on sets with symbolic items")
+            out = set()
+            for it in self.iterate(a):
+                if not self.truth(self.contains(b, it)):
+                    self.set_add(out, it)
+            return out
         if isinstance(a, bool) and is_sym(b):
             a = int(a)
         if isinstance(b, bool) and is_sym(a):
